@@ -72,7 +72,7 @@ def run(ctx):
     if tier == "thorough":
         shards, args = 16, ["-hist", 18, "-maxn", 7, "-thorough"]
     else:
-        shards, args = 8, ["-hist", 3, "-maxn", 6]
+        shards, args = 12, ["-hist", 2, "-maxn", 6]
     # shard i starts its validator-count rotation at a different size
     jobs = [(i, seed * 1000 + i, args + ["-first", i], os.path.join(cdir, "shard%02d.txt" % i)) for i in range(shards)]
     t0 = time.time()
@@ -117,24 +117,45 @@ def analyse(paths, tier, crashed):
                           if rule != REQUIRED_RULE else "") + d)
     diffs.sort(key=lambda x: isinstance(x, dict))   # unexplained first
     vlines, zhist, ztotal, kinds, classes, victims, samples = [], [], {}, {}, {}, {}, []
-    nontrivial, distinct, distinct_forged = 0, set(), set()
+    nontrivial, distinct, distinct_forged, seq_steps = 0, set(), set(), 0
+    vinputs = {}
     for p in paths:
+        frs, seqbuf, seqkey = {}, [], None
         for l in open(p):
             l = l.rstrip("\n")
+            if l.startswith("FR "):
+                t = l.split(None, 3)
+                frs[(t[1], t[2])] = l
+            elif l[:3] in ("FS ", "NS "):
+                t = l.split()
+                k = (t[0], t[1], t[2])
+                if k != seqkey:
+                    seqkey, seqbuf = k, []
+                rids = [t[6]] if t[0] == "FS" else [x for x in l.split(" | ")[1].split()[1:] if x != "-"]
+                seqbuf = seqbuf + [frs.get((t[1], r), "") for r in rids] + [l]
             if l.startswith("V "):
                 vlines.append(l)
+                m = re.search(r"seq=(\d+)/(\d+)", l)
+                if m and seqkey and seqkey[2] == m.group(1) and l not in vinputs:
+                    vinputs[l] = [x[:600] for x in seqbuf]   # the concrete multi-step input: responses (FR) and calls
             elif l.startswith("Z hist="):
                 zhist.append(l[2:])
             elif l.startswith("Z total"):
                 for kv in l.split()[2:]:
                     k, v = kv.rsplit("=", 1)
                     ztotal[k] = ztotal.get(k, 0) + int(v)
-            elif l.startswith("FF ") or l.startswith("NF "):
+            elif l[:3] in ("FF ", "NF ", "FS ", "NS "):
                 t = l.split()
                 if t[0] == "FF":
                     victim, kind = t[3], t[4]
-                else:
+                elif t[0] == "NF":
                     victim, kind = "node", t[3]
+                elif t[0] == "FS":      # step of a sequence on one core
+                    victim, kind = "core-seq/step" + t[3], t[5]
+                    seq_steps += 1
+                else:                   # step of a sequence on one Node
+                    victim, kind = "node-seq/step" + t[3], t[4]
+                    seq_steps += 1
                 cls = l.rsplit("=> ", 1)[1].split()[0]
                 grp = kind.split(".")[0]
                 kinds[grp] = kinds.get(grp, 0) + 1
@@ -155,8 +176,8 @@ def analyse(paths, tier, crashed):
             diffs = [coq_err] + diffs
     out = dict(coq_sample=coq_n, rule=rule, lost_repairs=lost, rules_tried=tried, cases=cases, diffs=diffs[:20], ndiffs=len(diffs), notes=len(notes),
                note_kinds=_note_hist(notes), vlines=vlines, crashed=crashed, histories=len(zhist), zhist=zhist[:200],
-               ztotal=ztotal, kinds=kinds, classes=classes, victims=victims, nontrivial=nontrivial,
-               distinct=len(distinct), distinct_forged=len(distinct_forged), samples=samples)
+               ztotal=ztotal, vinputs=vinputs, kinds=kinds, classes=classes, victims=victims, nontrivial=nontrivial,
+               distinct=len(distinct), distinct_forged=len(distinct_forged), seq_steps=seq_steps, samples=samples)
     return out
 
 
@@ -247,7 +268,10 @@ def findings_for(res, prop):
         if k in seen:
             continue
         seen.add(k)
-        findings.append(dict(cls=cls, key=" ".join(t[3].split()[1:])[:200], detail=l[:600]))
+        f = dict(cls=cls, key=" ".join(t[3].split()[1:])[:200], detail=l[:600])
+        if l in res.get("vinputs", {}):
+            f["input_sequence"] = res["vinputs"][l]
+        findings.append(f)
     for c in res["crashed"]:
         findings.append(dict(cls="harness-crash", key=c[:200], detail=c))
     return findings
@@ -267,9 +291,12 @@ def coverage_from(res, what):
              "signature map: thresholds, respelled signers, swaps, foreign signers, signatures over another block, garbage keys/values; forged "
              "stranger validator sets; an insider shrinking the set) applied through core.fastForward to victims in 5 states "
              "(fresh, partial history, foreign validator set, joiner, already fast-forwarded) and through Node.fastForward (scripted transport, "
-             "recording application proxy). %s evaluations = cases compared with the model (decision class, reject-noop digest, post-state); "
+             "recording application proxy); and STATEFUL victims: sequences of 2-3 interactions on one core / Node (a valid response that passes the "
+             "checks but is not applied because proxy.Restore fails, then every mutation kind; a refused response then the valid one; the valid one "
+             "applied then a second same / older / tampered response), %d sequence steps, the model folded over each sequence and the known sets "
+             "predicted after every adoption compared. %s evaluations = cases compared with the model (decision class, reject-noop digest, post-state); "
              "%d of them mutated; distinct_nontrivial = distinct (mutation kind, victim state, result class) among the mutated cases. %s"
-             % (res["histories"], res["cases"], res["nontrivial"], what),
+             % (res["histories"], res.get("seq_steps", 0), res["cases"], res["nontrivial"], what),
         samples=res["samples"], rule_required=REQUIRED_RULE, rule_detected=res["rule"], lost_repairs=res.get("lost_repairs", []),
         rules_tried=res["rules_tried"],
         histogram=dict(mutation_groups=res["kinds"], result_classes=res["classes"], victims=res["victims"],
